@@ -33,7 +33,7 @@ RULE = ('cases: wavefronts of shape 1..5 x 1..5 (one full field, or 2-3 sub-fiel
         'propagate_dft on the full period, on a smaller centred window (shape), and on a window nested in it (smaller shape / '
         'prop_shape / off-centre mask box), pupil→image and image→pupil, scalar and per-axis input sampling dx, untilted / common tilt (integer + sub-pixel, incl. the displaced full period) / per-field sub-pixel tilts, Wavefront.insert with weight ≠ 1; propagate_fft full and cropped, with and without scratch; normalize_power of complex '
         'arrays and of pupil amplitudes that are then imaged. distinct = (kind, field shapes/offsets, K, L, os, windows); '
-        'non-trivial = not (square, isotropic, single field) i.e. outside what the test-suite samples A ≈5 % sample (search tier: a leading block of 150 + padded FFT grids of 2048², 4096×1024, 1024×4100 checked by their totals) comes from an extremes stream: normalize_power targets within 1e-7 … 3e-5 relative or 1e-8 absolute of the present power at amplitude scales 1e-9 … 1e3, field amplitudes at 1e-9 / 1e9, wavelengths / distances / pixel sizes from 1e-9 to 1e6 with near-equal per-axis dx, 33–47 fields per wavefront; the quick tier runs one 4096×1024 FFT grid; all tolerances are relative to Σ|f_k|² resp. the target power.')
+        'non-trivial = not (square, isotropic, single field) i.e. outside what the test-suite samples A ≈5 % sample (search tier: a leading block of 150 + padded FFT grids of 2048², 4096×1024, 1024×4100 checked by their totals) comes from an extremes stream: normalize_power targets within 1e-7 … 3e-5 relative or 1e-8 absolute of the present power at amplitude scales 1e-9 … 1e3, field amplitudes at 1e-9 / 1e9, wavelengths / distances / pixel sizes from 1e-9 to 1e6 with near-equal per-axis dx, 33–47 fields per wavefront; the quick tier runs one 4096×1024 FFT grid; all tolerances are relative to Σ|f_k|² resp. the target power. About 10 % of the cases are segmented pupils (3-D mask, 2-3 disjoint segments) on wider-than-tall and taller-than-wide arrays, amplitude normalised to p, imaged over one period by both propagators and judged against the plane\'s amplitude·mask power (oracle only).')
 TRUSTED = ['np.fft.fft2(norm="ortho") is the unitary DFT with origin at index 0; np.fft.fftshift / ifftshift follow their documented '
            'index maps (modelled in Model/Energy.lean, observed through the correspondence)',
            'np.dot / np.exp / np.abs / np.sum as written in the model; Wavefront.intensity merges coincident output fields (C06)']
@@ -86,7 +86,32 @@ def _sub(rng, s):
     """a shape ≤ s componentwise (≥ 1)"""
     return [int(rng.integers(1, s[0] + 1)), int(rng.integers(1, s[1] + 1))]
 
+def _seg_case(rng, kmax):
+    """a segmented pupil (3-D mask: one slice per segment) on a wider-than-tall or taller-than-wide array, amplitude normalised to p,
+    imaged over one full period by propagate_dft and propagate_fft: the image total must be the plane's amplitude·mask power p"""
+    while True:
+        m, n = int(rng.integers(2, 9)), int(rng.integers(2, 9))
+        if m != n or rng.integers(0, 6) == 0: break
+    os_ = int(rng.integers(1, 4))
+    s = [-(-m // os_) + int(rng.integers(0, 3)), -(-n // os_) + int(rng.integers(0, 3))]
+    # disjoint rectangular segments: split the longer axis into 2-3 strips, each segment a box (> 1 pixel) inside its strip
+    k = int(rng.integers(2, 4)); axis = 0 if m >= n else 1
+    L = (m, n)[axis]
+    k = min(k, L // 2) if L >= 4 else 1
+    cuts = [round(i * L / k) for i in range(k + 1)]
+    boxes = []
+    for i in range(k):
+        lo, hi = cuts[i], cuts[i + 1]
+        other = (n, m)[axis]
+        o0 = int(rng.integers(0, max(1, other - 1))); o1 = int(rng.integers(o0 + 1, other + 1))
+        if (hi - lo) * (o1 - o0) < 2: o0, o1 = 0, other
+        boxes.append([lo, hi, o0, o1] if axis == 0 else [o0, o1, lo, hi])
+    return {'kind': 'seg', 'wshape': [m, n], 'os': os_, 'full': s, 'phys': _phys(rng), 'boxes': boxes,
+            'amp': [float(x) for x in rng.uniform(0.5, 1.5, m * n)], 'opd': [float(x) for x in rng.normal(size=m * n) * 5e-8],
+            'power': float(rng.uniform(0.5, 8.0))}
+
 def _case(rng, kmax):
+    if rng.integers(0, 10) == 0: return _seg_case(rng, kmax)
     t = int(rng.integers(0, 10))
     kind = 'dft' if t < 5 else 'fft' if t < 8 else 'norm'
     m, n = int(rng.integers(1, 6)), int(rng.integers(1, 6))
@@ -170,6 +195,7 @@ def _extreme(rng, kmax):
     physical units from 1e-9 to 1e9, more than 32 fields, near-equal per-axis sampling"""
     t = int(rng.integers(0, 6))
     c = _case(rng, kmax)
+    if c['kind'] == 'seg': return c
     if t in (0, 1) or c['kind'] == 'norm':
         # normalize_power with the target (almost) equal to the present power, at every amplitude scale
         m, n = c['wshape']
@@ -213,7 +239,7 @@ def generate(rng, tier):
     n, kmax = {'quick': (200, 10), 'thorough': (3000, 16), 'search': (350, 10)}[tier]
     out = []
     if tier == 'search':                 # only run once a tie is already broken: the nasty inputs first
-        out += [_extreme(rng, kmax) for _ in range(150)]
+        out += [_seg_case(rng, kmax) for _ in range(40)] + [_extreme(rng, kmax) for _ in range(150)]
         out += [_big_fft(rng, g) for g in ((2048, 2048), (4096, 1024), (1024, 4100))]
     for i in range(n):
         out.append(_extreme(rng, kmax) if (tier != 'search' and i % 20 == 7) else _case(rng, kmax))
@@ -224,17 +250,22 @@ def generate(rng, tier):
 def signature(c):
     base = f"{c['kind']} {c['wshape']} os={c['os']} full={c['full']}"
     if c['kind'] == 'norm': return base + f" p={c['power']:.6g} via={c['via']} cplx={c['amp_im'] is not None}"
+    if c['kind'] == 'seg': return base + f" seg={c['boxes']} p={c['power']:.6g}"
     fs = ' '.join(f"{f['shape']}@{f['off']}" for f in c['fields'])
     if c['kind'] == 'dft': return base + f" {fs} w2={c['w2']} w1={c['w1']} t={c.get('tilt')} w={c.get('weight')} p={c.get('ptype')}"
     return base + f" {fs} crop={c['crop']} scratch={c['scratch']}"
 
 def nontrivial(c):
+    if c['kind'] == 'seg': return True
     K, L = c['full'][0] * c['os'], c['full'][1] * c['os']
     return not (K == L and c['wshape'][0] == c['wshape'][1] and c['kind'] != 'norm' and len(c['fields']) == 1)
 
 def tags(c):
     K, L = c['full'][0] * c['os'], c['full'][1] * c['os']
     t = [c['kind'], f"os={c['os']}"]
+    if c['kind'] == 'seg':
+        t.append('seg:' + ('wide' if c['wshape'][1] > c['wshape'][0] else 'tall' if c['wshape'][0] > c['wshape'][1] else 'square'))
+        t.append(f"seg:n={len(c['boxes'])}"); return t
     if K != L: t.append('K!=L')
     if K % 2 or L % 2: t.append('odd-period')
     if K > c['wshape'][0] or L > c['wshape'][1]: t.append('period>input')
@@ -330,6 +361,21 @@ def impl(c):
         if c['crop']:
             res['crop'] = _I(lentil.propagate_fft(_wavefront(c), pixelscale=du, shape=tuple(c['crop']), oversample=os_, **kw))
         return res
+    if c['kind'] == 'seg':
+        m, n = c['wshape']; p = c['phys']
+        masks = np.zeros((len(c['boxes']), m, n))
+        for k, (r0, r1, c0, c1) in enumerate(c['boxes']): masks[k, r0:r1, c0:c1] = 1
+        if len(c['boxes']) == 1: masks = masks[0]
+        union = masks if masks.ndim == 2 else masks.sum(axis=0)
+        amp = lentil.util.normalize_power(np.array(c['amp']).reshape(m, n) * union, c['power'])
+        pupil = lentil.Pupil(amplitude=amp, opd=np.array(c['opd']).reshape(m, n), mask=masks, pixelscale=_dx(c), focal_length=p['z'])
+        w = lentil.Wavefront(wavelength=p['wl']) * pupil
+        res = {'plane_shape': [int(x) for x in pupil.shape], 'wf_shape': [int(x) for x in w.shape], 'n_fields': len(w.data),
+               'plane_power': float(np.sum(np.abs(amp * union) ** 2)), 'field_power': float(np.sum(np.abs(w.field) ** 2))}
+        res['dft'] = _I(lentil.propagate_dft(w, pixelscale=du, shape=tuple(c['full']), oversample=os_), True)
+        w2 = lentil.Wavefront(wavelength=p['wl']) * pupil
+        res['fft'] = _I(lentil.propagate_fft(w2, pixelscale=du, oversample=os_), True)
+        return res
     # normalize_power
     m, n = c['wshape']; p = c['phys']
     amp = np.array(c['amp']).reshape(m, n)
@@ -398,7 +444,7 @@ def _calls(c):
     return out
 
 def requests(c, io):
-    if c.get('summary'): return []          # too large for the interpreted model: oracle only
+    if c.get('summary') or c['kind'] == 'seg': return []          # oracle only (too large / Plane.multiply is C03/C07's model)
     os_ = c['os']
     K, L = c['full'][0] * os_, c['full'][1] * os_
     if c['kind'] == 'dft':
@@ -440,7 +486,7 @@ def _arr(d): return np.array(d['v'], dtype=float).reshape(d['shape'])
 def _marr(d): return np.array([bitsf(x) for x in d['v']], dtype=float).reshape(d['shape'])
 
 def compare(c, io, mo):
-    if c.get('summary'): return None
+    if c.get('summary') or c['kind'] == 'seg': return None
     for m in mo:
         if not m.get('ok'): return f"model refused: {m.get('err')}"
     if c['kind'] == 'dft':
@@ -475,6 +521,21 @@ def compare(c, io, mo):
 
 # ------------------------------------------------------------------------------------------ oracle (real code only)
 def oracle(c, io):
+    if c['kind'] == 'seg':
+        p = c['power']; m, n = c['wshape']
+        if io['plane_shape'] != [m, n]: return f"segmented plane of array shape {[m, n]} reports shape {io['plane_shape']}"
+        if io['wf_shape'] != [m, n]: return f"wavefront after the segmented pupil has shape {io['wf_shape']}, expected {[m, n]}"
+        if io['n_fields'] != len(c['boxes']): return f"{len(c['boxes'])} segments gave {io['n_fields']} fields"
+        if not abs(io['plane_power'] - p) <= TOL * p: return f"amplitude·mask power is {io['plane_power']}, normalised to {p}"
+        if not abs(io['field_power'] - p) <= TOL * p: return f"Σ|Wavefront.field|² = {io['field_power']!r} but the plane's amplitude·mask power is {p!r} (segments clipped?)"
+        K, L = c['full'][0] * c['os'], c['full'][1] * c['os']
+        for via in ('dft', 'fft'):
+            d = io[via]
+            if d['shape'] != [K, L]: return f"propagate_{via}: image shape {d['shape']}, expected one period {[K, L]}"
+            if not d['finite'] or d['min'] < 0: return f'propagate_{via}: negative or non-finite intensity'
+            if not abs(d['sum'] - p) <= TOL * p:
+                return f"segmented pupil {[m, n]} (power {p!r}) images to total {d['sum']!r} via propagate_{via} over the full period {[K, L]}"
+        return None
     if c['kind'] == 'norm':
         a = np.array(io['a']['re']) + 1j * np.array(io['a']['im']); p = c['power']
         pw = float(np.sum(np.abs(a) ** 2))
